@@ -4,8 +4,8 @@ from fractions import Fraction
 import numpy as np
 import check, gens
 
-GEN = ['tables', 'hkl', 't51']
-LEAN_MODULES = ['XfabVerif.Proofs.C05', 'XfabVerif.Proofs.C05T51']
+GEN = ['tables', 'hkl', 't51', 't54']
+LEAN_MODULES = ['XfabVerif.Proofs.C05', 'XfabVerif.Proofs.C05T51', 'XfabVerif.Proofs.C06T54']
 EXTRA_OBLIGATION_FILES = ['XfabVerif/Gen/T51/G%d.lean' % k for k in range(16)] + ['XfabVerif/Gen/T51/All.lean']
 AUDIT_FILES = ['XfabVerif/Lemmas/T51.lean', 'XfabVerif/Gen/T51/Segs.lean']
 # definitions the hand-written model mirrors (see harness/pins.py): a source change breaks the tie
